@@ -242,7 +242,11 @@ impl AsmParser {
                 break;
             }
 
-            self.line += 1;
+            // Line numbers (and addresses) are 16 bits wide
+            self.line = match self.line.checked_add(1) {
+                Some(line) => line,
+                None => return Err(error::parse_too_long(self.src)),
+            };
         }
         Ok(self.air)
     }
